@@ -42,6 +42,12 @@ def jobs(tier):
         tag = "v2" if pair[0] == "2a" else "hybrid"
         out.append(("%s.seq.P16384-then-P32768" % tag, "job_pair_seq", dict(pair=pair, P1=16384, P2=32768)))
         out.append(("%s.seq.P65536-then-P16384" % tag, "job_pair_seq", dict(pair=pair, P1=65536, P2=16384)))
+        out.append(("%s.flat2.P16384.empty-directories" % tag, "job_pair", dict(pair=pair, shape="flat2", P=16384, K=1, order="reversed", emptydirs=True)))
+        for i, sp in enumerate(sorted(cr.SPELLINGS)):
+            for shp in ("selfdir", "suffixdir"):
+                if q and (i + (shp == "selfdir")) % 2:
+                    continue
+                out.append(("%s.%s.spelled-%s" % (tag, shp, sp), "job_pair", dict(pair=pair, shape=shp, P=16384, K=1, order="reversed", spelling=sp)))
         out.append(("%s.single.P32768" % tag, "job_pair", dict(pair=pair, shape="single", P=32768, K=4, order="reversed")))
         out.append(("%s.flat2.P16384" % tag, "job_pair", dict(pair=pair, shape="flat2", P=16384, K=3, order="symbolic")))
         out.append(("%s.nested3.P16384" % tag, "job_pair", dict(pair=pair, shape="nested3", P=16384, K=2, order="reversed")))
@@ -85,15 +91,22 @@ def strip(meta):
     return m
 
 
-def job_pair(E, pair, shape, P, K, order, _mutants=None):
+EMPTY_DIRS = ["name/empty", "name/d/hollow/inner", "name/.keep"]
+
+
+def job_pair(E, pair, shape, P, K, order, spelling=None, emptydirs=False, _mutants=None):
     fs, sizes = cr.make_fs(E, shape, K, P, order=order, lo=1 if shape == "single" else 0)
     if shape != "single":
         E.assume(disj(*[s > 0 for s in sizes.values()]))
+    if emptydirs:
+        for d in EMPTY_DIRS:
+            fs.mkdirs("/data/" + d)
+    path = cr.spelled(fs, spelling) if spelling else "/data/name"
     metas = []
     for which in pair:
         w = World(fs, mutants=_mutants)
         try:
-            t = cr.create(w, which, path="/data/name", piece_length=P, progress=0)
+            t = cr.create(w, which, path=path, piece_length=P, progress=0)
         except Exception as ex:  # noqa: BLE001
             E.fail("C10.no-exception", "%s: %s: %s" % (which, type(ex).__name__, ex))
             return
@@ -194,14 +207,24 @@ def replay(params, model, notes, workdir, seed):
     shape = params["shape"]
     sizes = cr.concrete_sizes(shape, model)
     root, data = cr.materialize(workdir, shape, sizes, seed)
+    if params.get("emptydirs"):
+        for d in EMPTY_DIRS:
+            os.makedirs(os.path.join(workdir, "data", d), exist_ok=True)
+    old = os.getcwd()
+    if params.get("spelling"):
+        root, cwd = cr.spelled_real(workdir, params["spelling"])
+        os.chdir(cwd)
     ms = []
-    for which in params["pair"]:
-        try:
-            m = dict(cr.real_create(which, path=root, piece_length=P).meta)
-        except Exception as ex:  # noqa: BLE001
-            return ["C10.no-exception: %s" % ex]
-        m.pop("creation date", None)
-        ms.append(cr.norm_real(m))
+    try:
+        for which in params["pair"]:
+            try:
+                m = dict(cr.real_create(which, path=root, piece_length=P).meta)
+            except Exception as ex:  # noqa: BLE001
+                return ["C10.no-exception: %s" % ex]
+            m.pop("creation date", None)
+            ms.append(cr.norm_real(m))
+    finally:
+        os.chdir(old)
     return [] if ms[0] == ms[1] else ["C10.creators.meta"]
 
 
